@@ -274,6 +274,9 @@ def run(db, chk) -> None:
                why="ordering or arithmetic on encoded ids makes the result depend on the arbitrary id numbering (hash seed, parse order)")
     chk.ob("C11.R4-id-opacity", "scan covered every function of hta", len(sinks) >= 2, "hta", found=len(sinks), accepted=">= 2 candidate sites (both frozen)", nontrivial=False)
     _derived_views(db, chk)
+    from ..specs.discipline import check_stateless
+    check_stateless(db, chk, "C11.R7-no-module-state", [ST])          # decoding / encoding helpers keep nothing between calls (tables of different traces never mix)
+    chk.floor("C11.R7-no-module-state", 10)
     from .c01 import _parser
     _parser(db, chk, enc_rule="C11.R6-local-encoding", full=False)      # the per-file table: ids handed to the frame ARE the table's ids
     gb = []
